@@ -1,12 +1,94 @@
-(* non-vacuity: concrete values meeting the hypotheses of the theorems *)
-From V Require Import Common.Base C17.WriteSM C17.Spec.
+(* non-vacuity: concrete, non-trivial values meeting the hypotheses of each
+   theorem of Properties.v (all by vm_compute) *)
+From V Require Import Common.Base C17.WriteSM C17.Spec C17.Proofs C17.CompileProofs C17.DiskProofs C17.SpecProofs.
+From Coq Require Import String.
 
-Definition pa : path := [47;111;47;97].      (* /o/a *)
-Definition pb : path := [47;111;47;98].      (* /o/b *)
 Definition ex_opts := mkOpts true false false.
-Definition ex_oc1 := mkOutcome false [[47;115;47;97]] false [mkOut pa [1] 11 false; mkOut pb [2] 12 false] false false false.
+Definition ex_d0 : fmap content := [(P "/src/a.js", [1]); (P "/out/keep.txt", [7])].
+Definition ex_oc1 := mkOutcome false [P "/src/a.js"] false
+  [mkOut (P "/out/a.js") [10] 110 false; mkOut (P "/out/b.js") [11] 111 false] false false false.
+(* second rebuild: a.js unchanged (skipped), b.js no longer produced (deleted), c.js new (written) *)
+Definition ex_oc2 := mkOutcome false [P "/src/a.js"] false
+  [mkOut (P "/out/a.js") [10] 110 false; mkOut (P "/out/c.js") [12] 112 false] false false false.
+(* third rebuild fails in the scanner *)
+Definition ex_oc3 := mkOutcome true [] false [] false false false.
 
-(* a successful build writes both reported files *)
-Example ex_step_writes :
-  r_effects (snd (step phys_id ex_opts (init []) ex_oc1)) = [EWrite pa [1]; EWrite pb [2]].
+(* allow_overwrite_forced_only_without_write: both directions are inhabited *)
+Example ex_allow_forced : effective_allow (mkOpts false false false) = true /\ effective_allow ex_opts = false.
+Proof. vm_compute. auto. Qed.
+
+(* writes_are_reported / successful_build_disk_exact: writes, a skip and a delete in one step *)
+Example ex_history_effects :
+  map (fun r => (r_failed_early r, r_effects r)) (trace phys_id ex_opts (init ex_d0) [ex_oc1; ex_oc2; ex_oc3]) =
+  [(false, [EWrite (P "/out/a.js") [10]; EWrite (P "/out/b.js") [11]]);
+   (false, [EWrite (P "/out/c.js") [12]; EDelete (P "/out/b.js")]);
+   (true,  [EDelete (P "/out/c.js"); EDelete (P "/out/a.js")])].
 Proof. vm_compute. reflexivity. Qed.
+
+Example ex_success_hypotheses :
+  let '(st1, r1) := step phys_id ex_opts (init ex_d0) ex_oc1 in
+  let '(st2, r2) := step phys_id ex_opts st1 ex_oc2 in
+  r_failed_early r2 = false /\ write ex_opts = true /\ to_stdout ex_opts = false /\
+  lookup (disk st2) (P "/out/a.js") = Some [10] /\ lookup (disk st2) (P "/out/b.js") = None /\
+  lookup (disk st2) (P "/out/c.js") = Some [12] /\ lookup (disk st2) (P "/out/keep.txt") = Some [7].
+Proof. vm_compute. repeat split; reflexivity. Qed.
+
+(* failed_build_writes_nothing: a failing step with a non-empty delete list; the repaired step has none *)
+Example ex_failed_step :
+  let st2 := run phys_id ex_opts (init ex_d0) [ex_oc1; ex_oc2] in
+  r_failed_early (snd (step phys_id ex_opts st2 ex_oc3)) = true /\
+  deletes_of (r_effects (snd (step phys_id ex_opts st2 ex_oc3))) = [P "/out/c.js"; P "/out/a.js"] /\
+  r_effects (snd (step_fixed phys_id ex_opts st2 ex_oc3)) = [] /\
+  fst (step_fixed phys_id ex_opts st2 ex_oc3) = st2.
+Proof. vm_compute. repeat split; reflexivity. Qed.
+
+(* cancellation and writing disabled are failed/non-writing builds too *)
+Example ex_cancel_and_nowrite :
+  r_failed_early (snd (step phys_id ex_opts (init ex_d0) (mkOutcome false [] false (linked ex_oc1) false true false))) = true /\
+  r_effects (snd (step phys_id (mkOpts false false false) (init ex_d0) ex_oc1)) = [] /\
+  List.length (r_outputs (snd (step phys_id (mkOpts false false false) (init ex_d0) ex_oc1))) = 2%nat.
+Proof. vm_compute. repeat split; reflexivity. Qed.
+
+(* no_input_overwritten: the check refuses an output on an input (case and
+   slash variants included), and lets it through when overwriting is allowed *)
+Definition ex_oc_clash := mkOutcome false [P "C:\src\A.js"] false [mkOut (P "c:/SRC/a.js") [10] 110 false] false false false.
+Example ex_overwrite_check :
+  compile ex_opts ex_oc_clash = ([mkOut (P "c:/SRC/a.js") [10] 110 false], true) /\
+  compile (mkOpts true true false) ex_oc_clash = ([mkOut (P "c:/SRC/a.js") [10] 110 false], false) /\
+  compile (mkOpts false false false) ex_oc_clash = ([mkOut (P "c:/SRC/a.js") [10] 110 false], false).
+Proof. vm_compute. repeat split; reflexivity. Qed.
+
+(* two_outputs_one_path: identical mergeable duplicates are merged without
+   error; different contents or non-mergeable files are an error *)
+Definition ex_dup (m1 m2 : bool) (c2 : content) := mkOutcome false [] false
+  [mkOut (P "/out/d.txt") [5] 105 m1; mkOut (P "/out/x.js") [6] 106 false; mkOut (P "/out/D.txt") c2 105 m2] false false false.
+Example ex_dedupe :
+  compile ex_opts (ex_dup true true [5]) = ([mkOut (P "/out/d.txt") [5] 105 true; mkOut (P "/out/x.js") [6] 106 false], false) /\
+  snd (compile ex_opts (ex_dup true true [9])) = true /\
+  snd (compile ex_opts (ex_dup true false [5])) = true.
+Proof. vm_compute. repeat split; reflexivity. Qed.
+
+(* deletes_only_own_earlier_outputs: a delete in the second element of a trace *)
+Example ex_trace_split :
+  exists pre res post, trace phys_id ex_opts (init ex_d0) [ex_oc1; ex_oc2; ex_oc3] = pre ++ res :: post /\
+    In (EDelete (P "/out/b.js")) (r_effects res) /\ In (P "/out/b.js") (written_paths pre).
+Proof.
+  eexists [_], _, [_]. vm_compute. split; [reflexivity|]. split; [right; left; reflexivity | right; left; reflexivity].
+Qed.
+
+(* step_meets_spec: the observation of the second rebuild is non-trivial *)
+Example ex_obs :
+  let st1 := fst (step phys_id ex_opts (init ex_d0) ex_oc1) in
+  let '(st2, r2) := step phys_id ex_opts st1 ex_oc2 in
+  let o := obs_of ex_opts st1 st2 ex_oc2 r2 [P "/out/a.js"; P "/out/b.js"] in
+  only_reported_b o && all_reported_written_b o && failed_no_write_b o && single_valued_b o && inputs_safe_b o = true
+  /\ List.length (ob_reported o) = 2%nat.
+Proof. vm_compute. split; reflexivity. Qed.
+
+(* the boolean deciders reject what they should: an unreported write, a deleted foreign file *)
+Example ex_deciders_reject :
+  only_reported_b (mkObs [] [(P "/x", [1])] [] [] false true false []) = false /\
+  only_reported_b (mkObs [(P "/x", [1])] [] [] [] false true false []) = false /\
+  failed_no_write_b (mkObs [] [(P "/x", [1])] [(P "/x", [1])] [] true true false []) = false /\
+  inputs_safe_b (mkObs [(P "/x", [1])] [(P "/x", [2])] [(P "/x", [2])] [P "/x"] false true false []) = false.
+Proof. vm_compute. repeat split; reflexivity. Qed.
